@@ -20,7 +20,7 @@ type c07Item struct {
 }
 
 var c07Leaves = []string{"D", "U", "A", "brk", "cont", "ret", "callf", "callg"}
-var c07Containers = []string{"if", "for3", "forr", "forj", "sw", "fnfx", "fnfi", "fng", "fngi"}
+var c07Containers = []string{"if", "for3", "forr", "forj", "sw", "fnfx", "fnfi", "fng", "fngi", "fnfxx"}
 
 func c07Blocks(kind string) int {
 	if kind == "sw" {
@@ -213,10 +213,14 @@ func (s *c07Scoper) item(it c07Item, depth int) {
 		s.block(it.kids[0], depth+1)
 		s.loopDepth--
 		s.pop()
-	case "fnfx", "fnfi", "fng", "fngi":
+	case "fnfx", "fnfi", "fng", "fngi", "fnfxx":
 		name := "f"
 		if it.kind == "fng" || it.kind == "fngi" {
 			name = "g"
+		}
+		if it.kind == "fnfxx" {
+			s.rej("second parameter of the same name")
+			return
 		}
 		if depth > 0 || s.inFunc != "" {
 			s.rej("function definition below top level")
@@ -308,6 +312,8 @@ func (b *c07Builder) item(it c07Item, depth int) []Stmt {
 		return []Stmt{Return{Vals: []Expr{IntLit{id}}}}
 	case "callf":
 		switch b.funcs["f"] {
+		case "fnfxx":
+			return []Stmt{ExprStmt{X: Call{Fn: "f", Args: []Expr{IntLit{id}, IntLit{id + 1}}}}}
 		case "fnfx":
 			return []Stmt{ExprStmt{X: Call{Fn: "f", Args: []Expr{IntLit{id}}}}}
 		case "fnfi":
@@ -334,7 +340,7 @@ func (b *c07Builder) item(it c07Item, depth int) []Stmt {
 		j := fmt.Sprintf("j%d", depth)
 		return []Stmt{For{Init: Define{Names: []string{j}, Form: DefShort, Vals: []Expr{IntLit{0}}}, Cond: Binary{Op: "<", L: Var{j}, R: IntLit{1}}, Post: IncDec{Name: j, Inc: true},
 			Body: append([]Stmt{b.mark()}, b.block(it.kids[0], depth+1)...)}}
-	case "fnfx", "fnfi", "fng", "fngi":
+	case "fnfx", "fnfi", "fng", "fngi", "fnfxx":
 		name := "f"
 		if it.kind == "fng" || it.kind == "fngi" {
 			name = "g"
@@ -342,6 +348,9 @@ func (b *c07Builder) item(it c07Item, depth int) []Stmt {
 		fd := FuncDef{Name: name}
 		if it.kind == "fnfx" {
 			fd.Params = []Param{{"x", TInt}}
+		}
+		if it.kind == "fnfxx" {
+			fd.Params = []Param{{"x", TInt}, {"x", TInt}}
 		}
 		if it.kind == "fnfi" || it.kind == "fngi" {
 			fd.Rets = []Type{TInt}
